@@ -1316,6 +1316,22 @@ def c09_candidates(tier):
         add(W, [Field("f", T_uint(8), [(2, 9)], None, "rw")], "type-width-mismatch", f"u8 over 9 bits on u{W}")
         add(W, [Field("f", T_int(16), [(0, 8)], None, "rw")], "type-width-mismatch", f"i16 over 8 bits on u{W}")
         add(W, [Field("f", T_uint(1), [(0, 2)], None, "rw")], "type-width-mismatch", f"u1 over 2 bits on u{W}")
+    # 1b. custom-typed fields (bitenum / hand-written / nested bitfield) whose raw type is wider or
+    # narrower than the selected bits; write-only ones have no getter whose type error would catch it
+    for W in (8, 32, 24, 128):
+        for acc in ("w", "rw"):
+            e = sparse_enum("E4", 4, [0, 15], None)
+            add(W, [Field("f", FType("optenum", 4, e), [(W - 3, 3)], None, acc)], "custom-type-width-mismatch", f"4-bit Option<bitenum> over 3 bits at the top of u{W}, access {acc}", aux=[e])
+            e = sparse_enum("E4", 4, [0, 15], None)
+            add(W, [Field("f", FType("optenum", 4, e), [(1, 3)], None, acc)], "custom-type-width-mismatch", f"4-bit Option<bitenum> over bits 1..=3 of u{W}, access {acc}", aux=[e])
+            e = full_enum("E2", 2)
+            add(W, [Field("f", FType("enum", 2, e), [(0, 3)], None, acc)], "custom-type-width-mismatch", f"2-bit exhaustive bitenum over 3 bits of u{W}, access {acc}", aux=[e])
+            add(W, [Field("f", FType("custom", 5, None, "Cust"), [(2, 4)], None, acc)], "custom-type-width-mismatch", f"5-bit custom type over 4 bits of u{W}, access {acc}", aux=[custom_decl("Cust", 5)])
+            add(W, [Field("f", FType("nested", 8, None, "Inner"), [(0, 7)], None, acc)], "custom-type-width-mismatch", f"8-bit nested bitfield over 7 bits of u{W}, access {acc}", aux=[nested_decl("Inner", 8)])
+            add(W, [Field("f", FType("custom", 3, None, "Cust"), [(1, 2)], (2, 3, True), acc)], "custom-type-width-mismatch", f"array of 3-bit custom type over 2-bit elements of u{W}, access {acc}", aux=[custom_decl("Cust", 3)])
+            if W >= 32:
+                add(W, [Field("f", FType("custom", 16, None, "Cust"), [(4, 12)], None, acc)], "custom-type-width-mismatch", f"u16-backed custom type over 12 bits of u{W}, access {acc}", aux=[custom_decl("Cust", 16)])
+                add(W, [Field("f", FType("custom", 12, None, "Cust"), [(4, 16)], None, acc)], "custom-type-width-mismatch", f"u12-backed custom type over 16 bits of u{W}, access {acc}", aux=[custom_decl("Cust", 12)])
     # 2. a bit >= N, non-array
     for W in nat:
         add(W, [Field("f", T_bool(), [(W, 1)], None, "rw")], "non-array-field-beyond-base-width", f"bool at bit {W} of u{W}")
